@@ -412,6 +412,9 @@ def g_dur(rng):
     if r < 0.15:
         return ("W", rng.choice([1, 2, 52, 53, -1, -52]))
     sign = rng.choice([1, 1, -1])
+    if r < 0.22:
+        # four centuries and more of days: a 400-year cycle is 146097 / 144000 / 146000 / 146400 days by mode
+        return ("U", 0, 0, sign * rng.choice([144000, 146000, 146097, 146400, 150000, 200000, 292194]), 0, 0, 0)
     if r < 0.5:
         return ("U", 0, 0, sign * rng.choice([1, 2, 28, 29, 30, 31, 59, 60, 359, 360, 365, 366,
                                               367, 730, 1461]), 0, 0, 0)
